@@ -34,18 +34,18 @@ func (e *Enc) contractOfFn(fn *ssa.Function) *Contract {
 }
 
 type dryFrame struct {
-	declared  map[string]string
-	outLen    int
-	nfresh    int
-	strLits   map[string]string
-	vals      map[ssa.Value]bool
-	writeLog  map[string]bool
-	blockOut  map[int]*State
-	nUnsupp   int
-	siteN     map[string]int
-	exitsLen  int
-	cacheLen  int
-	nonLocal  map[string]bool
+	declared map[string]string
+	outLen   int
+	nfresh   int
+	strLits  map[string]string
+	vals     map[ssa.Value]bool
+	writeLog map[string]bool
+	blockOut map[int]*State
+	nUnsupp  int
+	siteN    map[string]int
+	exitsLen int
+	cacheLen int
+	nonLocal map[string]bool
 }
 
 func (e *Enc) beginDry(fr *Frame) *dryFrame {
